@@ -509,6 +509,28 @@ def install(w):
         d = ex.to_py(args[0])
         return Z(ex.S.assoc(ex.P.dkeys(d), ex.P.dvals(d), ex.to_py(args[1])))
 
+    @b("dict_put")
+    def _dict_put(ex, args, kw, e, env):
+        """The dictionary after d[k] = v (newest binding first: lookups find it first)."""
+        from . import stores
+        return Z(stores.put(ex, ex.to_py(args[0]), args[1], args[2]))
+
+    @b("dict_keys")
+    def _dict_keys(ex, args, kw, e, env):
+        return Z(ex.P.dkeys(ex.to_py(args[0])))
+
+    @b("dict_values")
+    def _dict_values(ex, args, kw, e, env):
+        return Z(ex.P.dvals(ex.to_py(args[0])))
+
+    @b("assoc")
+    def _assoc(ex, args, kw, e, env):
+        return Z(ex.S.assoc(ex.to_list(args[0]), ex.to_list(args[1]), ex.to_py(args[2])))
+
+    @b("take")
+    def _take(ex, args, kw, e, env):
+        return Z(ex.S.take(ex.to_list(args[0]), ex.to_int(args[1])))
+
     @b("is_dict")
     def _is_dict(ex, args, kw, e, env):
         return Z(ex.P.is_PDict(ex.to_py(args[0])))
